@@ -464,14 +464,28 @@ func (c *Ctx) meltDecisionTable(r1 string, full bool) {
 						pre *Ex
 					}
 					var chains []chain
-					for _, oc := range c.CtxsOf(s.Instr) {
-						d := c.P.Describe(s.Instr)
-						p2 := oc.Of(d.Args[pPre])
-						at := ssa.Instruction(s.Instr)
-						if oc.call != nil && oc.Fn == s.Instr.Parent() && c.P.IsNewFunc(oc.Fn) {
-							at = oc.call
+					dd := c.P.Describe(s.Instr)
+					plain := c.P.OriginsOf(s.Instr.Parent()).Of(dd.Args[pPre])
+					fromCaller := false
+					if c.P.IsNewFunc(s.Instr.Parent()) {
+						for _, a := range plain.Alts() {
+							// the value itself is handed in (a parameter, or a field of one), not obtained by a call here
+							if a.K == "param" || (a.K == "field" && len(a.Args) > 0 && a.Args[0].K != "call") {
+								fromCaller = true
+							}
 						}
-						chains = append(chains, chain{at, p2})
+					}
+					if !fromCaller {
+						// the answer is obtained where the write is: one question, in place (helpers and callers above)
+						chains = append(chains, chain{s.Instr, pre})
+					} else {
+						for _, oc := range c.CtxsOf(s.Instr) {
+							at := ssa.Instruction(s.Instr)
+							if oc.call != nil && oc.Fn == s.Instr.Parent() {
+								at = oc.call
+							}
+							chains = append(chains, chain{at, oc.Of(dd.Args[pPre])})
+						}
 					}
 					ok, why := true, ""
 					for _, ch := range chains {
